@@ -189,6 +189,11 @@ def gen_ops(rng, case, thorough):
     if kind == 'bsp' and len(tail) <= 1 and sdim <= 2:
         ops.append({'op': 'cylinderize', 'z0': dy(-4, 4), 'z1': dy(5, 9), 'support': [hx(Fraction(1, 2)), hx(Fraction(3, 2))],
                     'grid': [[hx(Fraction(3, 4)), hx(Fraction(5, 4))]] + case['grid']})
+        # documented defaults: z0=0, z1=1, support=(0,1)
+        g01 = [[hx(Fraction(1, 4)), hx(Fraction(3, 4)), hx(1)]] + case['grid']
+        ops.append({'op': 'cylinderize', 'z0': dy(-4, 4), 'z1': dy(5, 9), 'grid': g01})
+        ops.append({'op': 'cylinderize', 'z0': dy(2, 9), 'grid': g01})
+        ops.append({'op': 'cylinderize', 'grid': g01})
     if len(tail) <= 1 and sdim <= 2:
         for name in ('outer_sum', 'outer_product', 'tensor_product'):
             osd = rng.randint(1, 3 - sdim)
@@ -387,12 +392,39 @@ class Checker:
                 self.cmp('routes-call-vs-pointwise', P['vpw'], P['vcall'], 2 * b0, 'pointwise_eval differs from __call__', xs)
             if P['jgrid'] is not None and P['jpw'] is not None:
                 self.cmp('routes-jac-grid-vs-pointwise', P['jpw'], P['jgrid'], 2 * b1, 'pointwise_jacobian differs from grid_jacobian', xs)
+        # scattered points as multi-dimensional arrays in several memory layouts: element [idx] of the result is
+        # the value / Jacobian at the point [idx], whatever the strides of the coordinate arrays
+        spP = [P for P in self.points if not P['grid']]
+        for lay in ev.get('layouts', []):
+            shp = lay['shape']
+            size = 1
+            for t in shp:
+                size *= t
+            tag = '%dd-%s' % (len(shp), lay['layout'])
+            le = self.route(lay['pw_eval'], 'pointwise_eval(%s)' % tag, shp + tail)
+            lj = self.route(lay['pw_jac'], 'pointwise_jacobian(%s)' % tag, shp + tail + [sdim])
+            for k in range(size):
+                P = spP[k % len(spP)]
+                b0, b1, _ = P['bounds']
+                if le is not None:
+                    self.cmp('pointwise_eval-layout-%s' % tag, le[k * m:(k + 1) * m], P['exact'][0], b0,
+                             'pointwise_eval with %s coordinate arrays of shape %s: element %d is not the value at its point' % (lay['layout'], shp, k), P['xs'])
+                if lj is not None:
+                    self.cmp('pointwise_jacobian-layout-%s' % tag, lj[k * m * sdim:(k + 1) * m * sdim], P['exact'][1], b1,
+                             'pointwise_jacobian with %s coordinate arrays of shape %s: element %d is not the Jacobian at its point' % (lay['layout'], shp, k), P['xs'])
         if ca is not None:
             # f(X, y0, z0) with an array X: the value at (X[k], y0, z0)
             for k in range(len(sp)):
                 xs = [sp[k][0]] + sp[0][1:]
                 (v, _, _), (b0, _, _) = exact_at(self.of, self.kind, xs)
                 self.cmp('call-array', piece(ca, k, m), v, 2 * O.pow2_ceil(b0), '__call__ with an array coordinate differs from the exact map', xs)
+        for gv in ev.get('grid_variants', []):
+            if 'err' in gv:
+                self.fail('grid-axes-%s-raises-%s' % (gv['kind'], gv['err']), 'grid_eval/grid_jacobian with grid axes given as %s raised %s: %s' % (gv['kind'], gv['err'], gv.get('msg')))
+            elif not (gv['same_eval'] and gv['same_jac']):
+                self.fail('grid-axes-%s' % gv['kind'], 'grid_eval/grid_jacobian with grid axes given as %s differ from the result for contiguous arrays of the same numbers' % gv['kind'])
+        if self.res.get('reeval_same') not in (None, True):
+            self.fail('history-reeval', 'grid_eval on the first grid after the other evaluations/operations on the same object does not reproduce the first result (%r)' % (self.res.get('reeval_same'),))
         if not self.res.get('unchanged', True):
             self.fail('mutated', 'evaluating / operating on the function changed its kvs/coeffs/support')
 
@@ -651,12 +683,19 @@ def run_ops(ck):
             check_restricted_boundary(ck, op, r)
             continue
         elif name == 'cylinderize':
-            z0, z1 = fr(op['z0']), fr(op['z1'])
-            s0, s1 = [fr(h) for h in op['support']]
+            z0 = fr(op['z0']) if 'z0' in op else Fraction(0)          # documented defaults
+            z1 = fr(op['z1']) if 'z1' in op else Fraction(1)
+            s0, s1 = [fr(h) for h in op['support']] if 'support' in op else (Fraction(0), Fraction(1))
             argmax = max(abs(z0), abs(z1)) + 1
+            if isinstance(r.get('support'), list) and [fr(h) for h in r['support'][0]] != [s0, s1]:
+                ck.fail('op-cylinderize-support', 'cylinderize(%s): the new axis has support %r, documented %r' % (
+                    ', '.join(k_ for k_ in ('z0', 'z1', 'support') if k_ in op) or 'defaults', [float(fr(h)) for h in r['support'][0]], [float(s0), float(s1)]))
 
             def expected(xs, z0=z0, z1=z1, s0=s0, s1=s1):
                 return value_of(ck.of, kind, xs[:-1]) + [z0 + (z1 - z0) * (xs[-1] - s0) / (s1 - s0)]
+            if 'coeffs' in r:
+                coq = 'check_arr %s (b_cylinderize F %s %s %s %s) %s' % (cqc(barr(2, argmax)), cqc(z0), cqc(z1), cqc(s0), cqc(s1),
+                                                                       cql([fr(h) for h in r['coeffs']['v']]))
         elif name in ('outer_sum', 'outer_product', 'tensor_product'):
             oo = oracle_func(op['other'])
             okind = op['other']['kind']
@@ -1030,9 +1069,30 @@ def gen_ctors(ctx):
         cs.append({'ctor': 'identity', 'args': {'extents': ext},
                    'grid': [[e[0], hx((fr(e[0]) + 3 * fr(e[1])) / 4), e[1]] for e in ext]})
         cs.append({'ctor': 'unit_cube', 'args': {'dim': rng.randint(1, 3), 'num_intervals': rng.randint(1, 3)}})
+    # every constructor also with its DEFAULT arguments (r=1, r1=1, r2=2, support=(0,1), intervals=1, dim=3, num_intervals=1)
+    T5 = T[::4]
+    bdg = {s_: [T] for s_ in ('left', 'right', 'bottom', 'top')}
+    al = hx(rng.uniform(0.3, 2.8))
+    cs += [{'ctor': 'circular_arc_3pt', 'args': {'alpha': al}, 'grid': [T]},
+           {'ctor': 'circular_arc_5pt', 'args': {'alpha': hx(rng.uniform(0.3, 5.0))}, 'grid': [T]},
+           {'ctor': 'circular_arc_7pt', 'args': {'alpha': hx(rng.uniform(0.3, 6.2))}, 'grid': [T]},
+           {'ctor': 'circular_arc', 'args': {'alpha': hx(rng.uniform(0.3, 6.2))}, 'grid': [T]},
+           {'ctor': 'semicircle', 'args': {}, 'grid': [T]}, {'ctor': 'circle', 'args': {}, 'grid': [T]},
+           {'ctor': 'quarter_annulus', 'args': {}, 'grid': [T, T5], 'bd': ['left', 'right', 'bottom', 'top'], 'bdgrid': bdg},
+           {'ctor': 'quarter_annulus', 'args': {'r1': hx(Fraction(3, 8))}, 'grid': [T, T5], 'bd': ['left', 'right', 'bottom', 'top'], 'bdgrid': bdg},
+           {'ctor': 'disk', 'args': {}, 'grid': [T5, T5], 'bd': ['left', 'right', 'bottom', 'top'], 'bdgrid': bdg},
+           {'ctor': 'line_segment', 'args': {'x0': [hx(Fraction(rng.randint(-16, 16), 4)) for _ in range(2)],
+                                             'x1': [hx(Fraction(rng.randint(-16, 16), 4)) for _ in range(2)]}, 'grid': [T5]},
+           {'ctor': 'line_segment', 'args': {'x0': [hx(Fraction(5, 2))], 'x1': [hx(Fraction(-3, 4))], 'scalar_ends': True, 'intervals': 3}, 'grid': [T5]},
+           {'ctor': 'line_segment', 'args': {'x0': [hx(2)], 'x1': [hx(7)], 'support': [hx(2), hx(7)]}, 'grid': [[hx(2), hx(Fraction(13, 4)), hx(7)]]},
+           {'ctor': 'unit_cube', 'args': {}}, {'ctor': 'unit_cube', 'args': {'dim': 2}}, {'ctor': 'unit_cube', 'args': {'num_intervals': 2}},
+           {'ctor': 'unit_square', 'args': {}}, {'ctor': 'unit_square', 'args': {'num_intervals': 3}}]
+    for c in cs:
+        if c['ctor'] == 'unit_square':
+            c['grid'] = [[hx(0), hx(Fraction(3, 8)), hx(1)]] * 2
     for c in cs:
         if c['ctor'] == 'unit_cube':
-            c['grid'] = [[hx(0), hx(Fraction(3, 8)), hx(1)]] * c['args']['dim']
+            c['grid'] = [[hx(0), hx(Fraction(3, 8)), hx(1)]] * c['args'].get('dim', 3)
     cs.append({'ctor': 'twisted_box', 'grid': [[hx(Fraction(1, 4)), hx(1)], [hx(0), hx(Fraction(5, 8))], [hx(Fraction(1, 2))]]})
     return cs
 
@@ -1041,7 +1101,14 @@ def check_ctor(c, r):
     """returns list of (code, text)"""
     bad = []
     name = c['ctor']
-    a = c.get('args', {})
+    # arguments not passed take their documented defaults
+    one = hx(1)
+    defaults = {'circular_arc': {'r': one}, 'circular_arc_3pt': {'r': one}, 'circular_arc_5pt': {'r': one}, 'circular_arc_7pt': {'r': one},
+                'semicircle': {'r': one}, 'circle': {'r': one}, 'disk': {'r': one}, 'quarter_annulus': {'r1': one, 'r2': hx(2)},
+                'line_segment': {'support': [hx(0), one], 'intervals': 1}, 'unit_cube': {'dim': 3, 'num_intervals': 1},
+                'unit_square': {'num_intervals': 1}}
+    a = dict(defaults.get(name, {}), **c.get('args', {}))
+    passed = ', '.join(sorted(c.get('args', {}))) or 'defaults only'
     if r['status'] != 'Ok':
         return [('ctor-%s-raises-%s' % (name, r['status']), '%s raised %s: %s' % (name, r['status'], r.get('msg')))]
     rf = res_func(r)
@@ -1158,8 +1225,10 @@ def check_ctor(c, r):
             if any(abs(u - v) > 32 * EPS * (1 + abs(u)) for u, v in zip(xs, p)) or len(xs) != len(p):
                 bad.append(('ctor-%s-map' % name, '%s maps %r to %r (documented: the identity, xyz order)' % (name, [float(x) for x in xs], [float(x) for x in p])))
                 break
-        if name == 'unit_cube' and any(len(k['kv']) != a['num_intervals'] + 3 for k in r['kvs']):
-            bad.append(('ctor-unit_cube-intervals', 'wrong number of intervals'))
+        if name in ('unit_cube', 'unit_square') and any(len(k['kv']) != a['num_intervals'] + 3 for k in r['kvs']):
+            bad.append(('ctor-%s-intervals' % name, '%s(%s): wrong number of intervals' % (name, passed)))
+        if name in ('unit_cube', 'unit_square') and r['sdim'] != (a['dim'] if name == 'unit_cube' else 2):
+            bad.append(('ctor-%s-dim' % name, '%s(%s) has sdim %r' % (name, passed, r['sdim'])))
     return bad
 
 
@@ -1177,6 +1246,9 @@ def classify(code, ck):
         return 'pointwise-jacobian-slot:%s' % tc                 # tp_bsp_jac_pointwise: result[k, :, slot]
     if code.startswith('grid_hessian-raises') and ck.kind == 'bsp' and ck.tail == [1]:
         return 'hessian-dim1-vector'                             # grid_hessian of a (..., 1) coefficient array
+    if code.startswith(('pointwise_eval-layout', 'pointwise_eval(', 'pointwise_jacobian-layout', 'pointwise_jacobian(')):
+        # scattered evaluation of multi-dimensional / non-C-contiguous coordinate arrays
+        return 'pointwise-array-layout:%s' % ('eval' if code.startswith('pointwise_eval') else 'jacobian')
     if code == 'op-output-shape' and ck.kind == 'nurbs' and ck.tail == []:
         return 'nurbs-scalar-shape-lost'                         # NurbsFunc copy/boundary/translate/scale of a scalar function
     if code.startswith('ComposedFunction(scalar geo2)'):
